@@ -405,8 +405,18 @@ func runC15(tw *TraceWriter, id int, c *Case) {
 	base, variant := trees(c.Base), trees(c.Variant)
 	rb, _ := renderBody(base, true, nil)
 	fb, _ := renderBody(base, false, nil)
-	rv, _ := renderBody(variant, true, nil)
-	fv, _ := renderBody(variant, false, nil)
+	// every other case adds its comment with Commentf (the text split between the format string and an argument)
+	cb := NewBuilder()
+	if id%2 == 1 {
+		cb.Form = func(n *Node, first bool) string {
+			if n.K == "cmt" {
+				return "funcvariant"
+			}
+			return "stmt"
+		}
+	}
+	rv, _ := renderBody(variant, true, cb)
+	fv, _ := renderBody(variant, false, cb)
 	found, style := false, ""
 	want := normSpace(c.Text)
 	for _, cm := range CommentTokens(fv.out) {
